@@ -708,12 +708,14 @@ namespace bloch::compiler {
         std::vector<std::unique_ptr<AnnotationNode>> annotations;
 
         while (check(TokenType::At)) {
-            // TODO: refactor this, currently if invalid variable annotation is used, it will be
-            // caught rather than thrown this is a rather hacky solution.
-            try {
-                annotations.push_back(parseVariableAnnotation());
-            } catch (BlochError error) {
+            // Decide by lookahead: '@' is consumed by whichever parser we pick, so falling back
+            // from one to the other after a failure would start one token too late.
+            // @quantum may annotate methods; everything else here must be @tracked
+            // (@shots belongs to main only and is rejected like any other name).
+            if (checkNext(TokenType::Quantum)) {
                 annotations.push_back(parseFunctionAnnotation());
+            } else {
+                annotations.push_back(parseVariableAnnotation());
             }
         }
 
